@@ -72,6 +72,13 @@ fn decode(tape: &[u32], disk: DiskCfg) -> RangeCase {
         cur += if dups && !keys.is_empty() && t.chance(1, 3) { 0 } else { 1 + t.pick(4) as i64 };
         keys.push(cur);
     }
+    // an INT key sometimes reaches the ends of its type (bounds right at the limit)
+    let at_limits = key_ty == "int" && t.chance(1, 6);
+    if at_limits && !keys.is_empty() {
+        keys.push(2147483646);
+        keys.push(2147483647);
+        keys.insert(0, -2147483647);
+    }
     // split into 1..6 statements, rows of a statement in shuffled order
     let nst = t.range(1, 6).min(nkeys.max(1));
     let mut load = vec![];
@@ -118,6 +125,9 @@ fn decode(tape: &[u32], disk: DiskCfg) -> RangeCase {
     }
     // query constants: present, absent, below, above
     let consts = |t: &mut Tape| -> i64 {
+        if at_limits && t.chance(1, 3) {
+            return [2147483647i64, 2147483646, -2147483647][t.pick(3)];
+        }
         match t.pick(5) {
             0 if !keys.is_empty() => keys[t.pick(keys.len())],
             1 if !keys.is_empty() => keys[t.pick(keys.len())] + 1,
